@@ -81,3 +81,8 @@ CHECKS.update({
     "C19": ("6/C19", "Every sequence (length <=3; length 4 over a structure-changing sub-alphabet in the thorough tier) of mutating operations {set(path,value) incl. list indices, missing intermediates, children of scalars, undeclared fields; set_state replace / parent-type merge / incompatible type; clear; edit_state blocks; get_state()+mutate the snapshot} executed from scratch on InMemoryStateStore and on SqliteStateStore (real DB file) for DictState and a two-level typed model; full state dump and get() of 12-15 paths (with/without default) compared with a nested-dict reference after each sequence (every prefix is itself enumerated).",
             "No state merging (hidden aliasing would make it unsound). Fixes a4f61f0 (DictState snapshot shared _data) and f7e78ce (SQLite set_state without stored row skipped the merge) repaired the defects this check found.", ENUM_TECH),
 })
+
+CHECKS.update({
+    "C20": ("6/C20", "2-4 tasks, one operation each from {set, set_state (whole-state replace), clear, edit_state blocks that read, suspend at 1-2 harness gates and write} on colliding keys, started at explorer-chosen points; every interleaving of starts and gate releases executed on the real InMemoryStateStore and SqliteStateStore (DB file) on the virtual loop; final state must equal some permutation of the operations applied atomically to a plain dict (brute force).",
+            "All interleavings of each program are explored (no deviation bound). Fix 6ffe178 repaired the unlocked SqliteStateStore.set_state this check found.", SCHED_TECH),
+})
